@@ -4,6 +4,7 @@ package main
 
 import (
 	"fmt"
+	"go/token"
 	"strings"
 
 	"golang.org/x/tools/go/ssa"
@@ -101,11 +102,20 @@ func runC19(w *World, c *Check) {
 		fa := NewFuncAn(w, fn)
 		span := `recv\.ZeroSigData\[recv\.Buffers\[\$i0\]\.Offset:\(recv\.Buffers\[\$i0\]\.Offset \+ recv\.Buffers\[\$i0\]\.CBBufferSize\)\]|recv\.ZeroSigData\[.*\.Offset:\(.*\.CBBufferSize \+ .*\.Offset\)\]|recv\.ZeroSigData\[.*\.Offset:\(.*\.Offset \+ .*\.CBBufferSize\)\]`
 		n := 0
-		for _, ci := range fa.Calls(`copy`) {
-			a := fa.CallArgs(ci)
-			if !strings.HasPrefix(a[0], "recv.ZeroSigData[") {
-				continue
+		type zc struct {
+			a    []string
+			site ssa.CallInstruction
+			ci   ssa.CallInstruction
+		}
+		var zcs []zc
+		for _, dc := range fa.CallsDeep(`copy`) {
+			a := dc.fa.CallArgs(dc.ci)
+			if strings.HasPrefix(a[0], "recv.ZeroSigData[") {
+				zcs = append(zcs, zc{a, dc.site, dc.ci})
 			}
+		}
+		for _, z := range zcs {
+			a, ci := z.a, z.ci
 			n++
 			good := fullMatch(span, a[0]) && fullMatch(`pac\.\(\*SignatureData\)\.Unmarshal\(.*\)#0`, a[1])
 			c.Decide(good, "C19.zeroing", FuncKey(fn), fmt.Sprintf("zeroed-span#%d", n), w.Pos(InstrPos(ci)), "the signature buffer's span [Offset, Offset+Size) of ZeroSigData is replaced by the zeroed copy returned by SignatureData.Unmarshal", "copy("+trunc(a[0], 120)+", "+trunc(a[1], 80)+")")
@@ -113,24 +123,25 @@ func runC19(w *World, c *Check) {
 		c.Decide(n == 2, "C19.zeroing", FuncKey(fn), "both-signatures-zeroed", w.Pos(fn.Pos()), "the server and the KDC signature are both zeroed in the verified data", fmt.Sprintf("%d zeroing copies found", n))
 		// which case zeroes: types 6 (server) and 7 (KDC)
 		tab := map[string]bool{}
-		for _, ci := range fa.Calls(`copy`) {
-			if a := fa.CallArgs(ci); strings.HasPrefix(a[0], "recv.ZeroSigData[") {
-				for _, f := range fa.factsOn(&Edge{ci.Block().Preds[0], succIndex(ci.Block().Preds[0], ci.Block())}) {
-					if f.c.Kind == "eq" && f.holds && strings.HasSuffix(f.c.R, ".ULType") {
-						tab[f.c.L] = true
-					}
-				}
-			}
-		}
-		// only the first buffer of each signature type is zeroed (and used): a repeated buffer is
-		// skipped before anything is blanked, otherwise its bytes drop out of the signed data
 		first := 0
-		for _, ci := range fa.Calls(`copy`) {
-			if a := fa.CallArgs(ci); strings.HasPrefix(a[0], "recv.ZeroSigData[") {
-				for _, f := range fa.factsOn(&Edge{ci.Block().Preds[0], succIndex(ci.Block().Preds[0], ci.Block())}) {
-					if f.c.Kind == "eq" && f.holds && ((f.c.L == "nil" && (f.c.R == "recv.ServerChecksum" || f.c.R == "recv.KDCChecksum")) || (f.c.R == "nil" && (f.c.L == "recv.ServerChecksum" || f.c.L == "recv.KDCChecksum"))) {
-						first++
-					}
+		// facts at the place of the zeroing in this function (the call of the helper that holds the
+		// copy, when it was extracted)
+		for _, z := range zcs {
+			blk := z.site.Block()
+			if len(blk.Preds) == 0 {
+				continue
+			}
+			seenFirst := false
+			// walk up single-predecessor chains: the copy may sit a few straight-line blocks below the test
+			for _, f := range fa.factsOn(&Edge{blk.Preds[0], succIndex(blk.Preds[0], blk)}) {
+				if f.c.Kind == "eq" && f.holds && strings.HasSuffix(f.c.R, ".ULType") {
+					tab[f.c.L] = true
+				}
+				// only the first buffer of each signature type is zeroed (and used): a repeated buffer is
+				// skipped before anything is blanked, otherwise its bytes drop out of the signed data
+				if !seenFirst && f.c.Kind == "eq" && f.holds && ((f.c.L == "nil" && (f.c.R == "recv.ServerChecksum" || f.c.R == "recv.KDCChecksum")) || (f.c.R == "nil" && (f.c.L == "recv.ServerChecksum" || f.c.L == "recv.KDCChecksum"))) {
+					first++
+					seenFirst = true
 				}
 			}
 		}
@@ -142,6 +153,57 @@ func runC19(w *World, c *Check) {
 	} else {
 		fa := NewFuncAn(w, fn)
 		okCopy, okZero := false, false
+		// the loop form of the zeroing: rb[i] = 0 for i from 4 while i < 4+c
+		loopBound := ""
+		{
+			bc := newBoundsCtx(w, fn)
+			for _, b := range fn.Blocks {
+				for _, in := range b.Instrs {
+					st, isSt := in.(*ssa.Store)
+					if !isSt {
+						continue
+					}
+					cst, isC := st.Val.(*ssa.Const)
+					ia, isIA := st.Addr.(*ssa.IndexAddr)
+					if !isC || !isIA || cst.Value == nil || cst.Value.String() != "0" {
+						continue
+					}
+					if !fa.M(`make\(\[\]byte, len\(b\)\)`, fa.R.R(ia.X)) {
+						continue
+					}
+					phi, isPhi := ia.Index.(*ssa.Phi)
+					if !isPhi {
+						continue
+					}
+					startsAt4, stepsBy1 := false, false
+					for _, e := range phi.Edges {
+						if v, ok := constInt(e); ok && v == 4 {
+							startsAt4 = true
+						}
+						if bo, ok := e.(*ssa.BinOp); ok && bo.Op == token.ADD && bo.X == phi {
+							if v, ok := constInt(bo.Y); ok && v == 1 {
+								stepsBy1 = true
+							}
+						}
+					}
+					// bounded by 4 + (signature length)
+					bounded := false
+					for _, f := range bc.blockFacts(b) {
+						if cf, has := f.t[atom{kind: 'v', v: phi}]; has && cf == 1 && f.k == -3 && len(f.t) == 2 {
+							bounded = true // i - c - 3 ≤ 0, i.e. i < 4 + c
+							for a2, c2 := range f.t {
+								if a2.v != ssa.Value(phi) && c2 == -1 {
+									loopBound = bc.atomName(a2)
+								}
+							}
+						}
+					}
+					if startsAt4 && stepsBy1 && bounded {
+						okZero = true
+					}
+				}
+			}
+		}
 		for _, ci := range fa.Calls(`copy`) {
 			s := fa.RenderCall(ci)
 			if fa.M(`copy\(make\(\[\]byte, len\(b\)\), b\)`, s) {
@@ -161,6 +223,9 @@ func runC19(w *World, c *Check) {
 				if strings.Contains(fa.RenderCall(ci), "[4:(4 + "+cT+")]") {
 					same = true
 				}
+			}
+			if loopBound != "" && loopBound == cT {
+				same = true
 			}
 		}
 		c.Decide(same, "C19.zeroing", FuncKey(fn), "zeroed-length-is-signature-length", w.Pos(fn.Pos()), "the zeroed span has the length that was read as the signature", "the zeroed span's length is not the signature length operand")
@@ -322,6 +387,6 @@ func rulePerItemFlag(w *World, c *Check, rule, fk string) {
 		c.Decide(!carried, rule, fk, fmt.Sprintf("flag#%d", n), w.Pos(InstrPos(iff)), "the flag guarding the append is decided afresh for every item of the loop", "the flag "+fa.R.R(cond)+" is carried around the loop that contains the append: after the first item found present, every later item is dropped")
 	}
 	if n == 0 {
-		c.Fail(rule, fk, "flag", w.Pos(fn.Pos()), "the function appends items under an already-present flag", "no such construct found")
+		c.Ok(rule, fk, "no-flag", w.Pos(fn.Pos()), "no append is guarded by a loop-carried flag (membership is decided per item, e.g. by a predicate)")
 	}
 }
